@@ -384,6 +384,26 @@ def mode_cases(rng, n):
             sh_["targets"]["nodes"] = rng.sample(nodes, rng.randint(0, 2))
             sh_["comps"].append(rng.choice([("in", []), ("class", [EX.NoSuchClass]), ("nodekind", "NKLiteral")]))
             c = {"shapes": [sh_], "sg": S.shapes_to_rdf([sh_]), "data": data, "opts": {}, "family": "multi-valued targets"}
+        elif r < 0.58:
+            # value nodes that are different terms with one spelling (an IRI and the plain literal of its text, "1" and 1, "a" and "a"@en):
+            # whatever a component remembers about one of them says nothing about the other
+            data, nodes, lits = S.gen_typed_data(rng, n_iri=rng.randint(3, 5), n_bn=1, n_lit=1, n_triples=rng.randint(5, 10))
+            iris = [n_ for n_ in nodes if isinstance(n_, URIRef)]
+            pr = URIRef(rng.choice(S.PREDS))
+            twins = []
+            for n_ in rng.sample(iris, 2):
+                twins += [n_, Literal(str(n_))]
+            twins += rng.choice([[Literal("1"), Literal(1)], [Literal("a"), Literal("a", lang="en")], []])
+            foci = rng.sample(iris, 2)
+            for t_ in twins:
+                data.add((rng.choice(foci[:1] * 2 + foci), pr, t_))
+            sh_ = S.new_shape(EX["TW%d" % j], ("pred", str(pr)))
+            sh_["targets"]["nodes"] = foci
+            sh_["comps"].append(rng.choice([("class", [rng.choice(S.CLASSES)]), ("class", [rng.choice(S.CLASSES)]), ("nodekind", "NKIRI"), ("in", rng.sample(twins, 2))]))
+            nsh = S.new_shape(EX["TWN%d" % j], None)
+            nsh["targets"]["objects_of"] = [pr]
+            nsh["comps"].append(("class", [rng.choice(S.CLASSES)]))
+            c = {"shapes": [sh_, nsh], "sg": S.shapes_to_rdf([sh_, nsh]), "data": data, "opts": {}, "family": "terms with one spelling"}
         elif r < 0.7:
             c = EC.base_case(rng)
             c["opts"] = rng.choice([{}, {}, {"abort_on_first": True}, {"allow_warnings": True}])
